@@ -20,13 +20,14 @@ T_PeerSend == IsEvent("PeerSend") /\ sent' = sent + E.n
 T_Cancel == IsEvent("Cancel") /\ cancelled' = cancelled \cup {E.ctx}
             /\ UNCHANGED <<K, sent, calls, closeStarted, closeDone, connClosed, closeHung, chan, got>>
 
-IsRecv(c) == c \in {"next", "until"}
+IsRecv(c) == c = "next"
 BlockedRecvs == {i \in DOMAIN calls : /\ calls[i].st = "pending" /\ calls[i].call \in {"next", "until"} /\ calls[i].wait
                                       /\ ~(calls[i].ctx \in cancelled \/ "conn" \in cancelled)}
 recvd == Cardinality(got)
 LogoutRunning == \E i \in DOMAIN calls : calls[i].call = "connclose" \/ (calls[i].call = "close" /\ chan = 0)
 \* nothing left that a receiver could get (the logout of a Close on channel 0 receives one package itself)
-NothingQueued == recvd = sent \/ (LogoutRunning /\ recvd + 1 = sent)
+UntilUsed == \E i \in DOMAIN calls : calls[i].call = "until"
+NothingQueued == recvd = sent \/ (LogoutRunning /\ recvd + 1 = sent) \/ UntilUsed
 T_CallStart ==
     /\ IsEvent("CallStart") /\ E.id \notin DOMAIN calls
     /\ calls' = calls @@ (E.id :> [call |-> E.call, ctx |-> E.ctx, wait |-> E.wait, st |-> "pending",
@@ -50,7 +51,7 @@ T_CallEnd ==
                         \* receives one package itself, which the observer then never sees
                         \* (concurrent receivers may report out of order: the bound is the number of them)
                         /\ E.val \notin got /\ E.val >= 1 /\ E.val <= sent
-                        /\ E.val <= Cardinality(got) + NPendingRecv + (IF LogoutRunning THEN 1 ELSE 0)
+                        /\ (UntilUsed \/ E.val <= Cardinality(got) + NPendingRecv + (IF LogoutRunning THEN 1 ELSE 0))
                         /\ got' = got \cup {E.val}
                    [] E.outcome = "ctxerr" -> CtxGone(c) /\ UNCHANGED got       \* wraps the context's error
                    [] E.outcome = "closed" -> closeStarted /\ UNCHANGED got    \* reports the closed condition
@@ -59,6 +60,17 @@ T_CallEnd ==
                    [] OTHER -> FALSE
               /\ (c.afterClose => E.outcome = "closed")               \* after Close every call reports it
               /\ UNCHANGED <<closeDone, connClosed>>
+         [] c.call = "until" ->
+              \* NextPackageUntil: how many packages it consumed is not observable (it drains the response
+              \* after a callback error); judged: the outcome class and - through Hung - that it returns
+              /\ CASE E.outcome = "pkg" -> ~c.afterClose
+                   [] E.outcome = "cberr" -> TRUE
+                   [] E.outcome = "ctxerr" -> CtxGone(c)
+                   [] E.outcome = "closed" -> closeStarted
+                   [] E.outcome = "err" -> (connClosed \/ closeStarted)
+                   [] OTHER -> FALSE
+              /\ (c.afterClose => E.outcome = "closed")
+              /\ UNCHANGED <<closeDone, connClosed, got>>
          [] c.call = "send" ->
               /\ E.outcome \in {"ok", "ctxerr", "closed", "err"}
               /\ (c.ctx = "cancelled" => E.outcome # "ok" /\ E.wrote = 0)   \* a cancelled send writes nothing
@@ -78,7 +90,7 @@ T_CallEnd ==
     /\ Done(E.id)
     /\ UNCHANGED <<K, sent, cancelled, closeStarted, closeHung, chan>>
 
-PendingRecvLive == \E i \in DOMAIN calls : /\ calls[i].st = "pending" /\ IsRecv(calls[i].call) /\ calls[i].wait
+PendingRecvLive == \E i \in DOMAIN calls : /\ calls[i].st = "pending" /\ calls[i].call \in {"next", "until"} /\ calls[i].wait
                                            /\ ~CtxGone(calls[i])
 \* ---- calls that did not return within the watchdog
 \* a receive may keep waiting only while there is nothing to return and nothing was cancelled or closed
@@ -87,6 +99,12 @@ T_HungRecv ==
     /\ LET c == calls[E.id] IN
        \/ (c.wait /\ ~CtxGone(c) /\ NothingQueued /\ ~closeDone /\ ~c.afterClose)
        \/ closeHung                     \* consequence of an acknowledged hung Close (waiting writer blocks new readers)
+    /\ Done(E.id) /\ UNCHANGED <<K, sent, cancelled, closeStarted, closeDone, connClosed, closeHung, chan, got>>
+\* NextPackageUntil may keep waiting only while its context is live and the channel is open
+T_HungUntil ==
+    /\ IsEvent("Hung") /\ E.id \in DOMAIN calls /\ calls[E.id].call = "until"
+    /\ \/ (~CtxGone(calls[E.id]) /\ ~closeDone /\ ~calls[E.id].afterClose)
+       \/ closeHung
     /\ Done(E.id) /\ UNCHANGED <<K, sent, cancelled, closeStarted, closeDone, connClosed, closeHung, chan, got>>
 T_HungOther ==
     /\ IsEvent("Hung") /\ E.id \in DOMAIN calls /\ calls[E.id].call = "send" /\ closeHung
@@ -118,7 +136,7 @@ T_HungLogoutWait ==
     /\ closeHung' = TRUE /\ Done(E.id) /\ UNCHANGED <<K, sent, cancelled, closeStarted, closeDone, connClosed, chan, got>>
 T_End == IsEvent("End") /\ (\A i \in DOMAIN calls : calls[i].st = "done")
          /\ UNCHANGED <<K, sent, calls, cancelled, closeStarted, closeDone, connClosed, closeHung, chan, got>>
-Next == T_Reset \/ T_Setup \/ T_PeerSend \/ T_Cancel \/ T_CallStart \/ T_CallEnd \/ T_HungRecv \/ T_HungOther
+Next == T_Reset \/ T_Setup \/ T_PeerSend \/ T_Cancel \/ T_CallStart \/ T_CallEnd \/ T_HungRecv \/ T_HungUntil \/ T_HungOther
         \/ T_HungLogoutWait \/ KF_CloseBehindParkedReader \/ KF_CloseBehindBlockedReceiver \/ T_End
 Spec == Init /\ [][Next]_vars
 HW == HWOf(l)
